@@ -195,8 +195,9 @@ func (root *Root) RegisterField(gqlType, gqlField, goField string, args ...strin
 
 func (root *Root) regField(obj *Object, fd *FieldDef, goField string, args ...string) (err error) {
 	obj.mu.Lock()
-	meta := obj.meta
+	ometa := obj.meta
 	obj.mu.Unlock()
+	meta := ometa
 	if meta.Kind() == reflect.Ptr {
 		meta = meta.Elem()
 	}
@@ -211,8 +212,8 @@ func (root *Root) regField(obj *Object, fd *FieldDef, goField string, args ...st
 			return
 		}
 	}
-	for i := obj.meta.NumMethod() - 1; 0 <= i; i-- {
-		m := obj.meta.Method(i)
+	for i := ometa.NumMethod() - 1; 0 <= i; i-- {
+		m := ometa.Method(i)
 		if strings.EqualFold(m.Name, goField) {
 			fd.method = &m.Func
 			break
@@ -221,14 +222,14 @@ func (root *Root) regField(obj *Object, fd *FieldDef, goField string, args ...st
 	if fd.method != nil {
 		if 0 < len(args) {
 			if fd.args.Len() != len(args) {
-				return fmt.Errorf("%w: not enough arguments for field %s of %s", ErrMeta, goField, obj.meta)
+				return fmt.Errorf("%w: not enough arguments for field %s of %s", ErrMeta, goField, ometa)
 			}
 			newArgs := argList{}
 			for _, arg := range args {
 				if a := fd.args.get(arg); a != nil {
 					_ = newArgs.add(a)
 				} else {
-					err = fmt.Errorf("%w: %s is not an argument on field %s of %s", ErrMeta, arg, goField, obj.meta)
+					err = fmt.Errorf("%w: %s is not an argument on field %s of %s", ErrMeta, arg, goField, ometa)
 					break
 				}
 			}
@@ -236,7 +237,7 @@ func (root *Root) regField(obj *Object, fd *FieldDef, goField string, args ...st
 		}
 		return
 	}
-	return fmt.Errorf("%w: %s is not a field of %s", ErrMeta, goField, obj.meta)
+	return fmt.Errorf("%w: %s is not a field of %s", ErrMeta, goField, ometa)
 }
 
 func (root *Root) addTypes(types ...Type) error {
